@@ -522,7 +522,8 @@ def assigned_idents(body):
                 elif t[j] == ',' and d == 1: break
                 if d == 0: break
                 j += 1
-            ids = [y for y in t[i + 2:j] if IDENT.match(y) and y != 'self']
+            ids = [y for y in t[i + 2:j] if IDENT.match(y) and y != 'self' and not y.endswith('_t')
+                   and y not in ('unsigned', 'signed', 'int', 'long', 'short', 'char', 'struct', 'const', 'void', 'bool', '_Bool')]
             # the written object: every identifier that is not an index expression is over-approximated in
             out.update(ids)
     return out
